@@ -15,6 +15,14 @@ examples plus one or two further admissible sets.  Flags:
 import numpy as np
 
 
+def _sv_alt(n, a, b):
+    """one state variable, alternating between two values from point to point (points on their primary path next to
+    softened ones in one batch)"""
+    v = np.full((1, n, 1), float(a))
+    v[:, 1::2] = b
+    return v
+
+
 def _sv(nstate, n, fill=0.0):
     return np.full((nstate, n, 1), fill, dtype=float)
 
@@ -83,19 +91,19 @@ def catalogue(tier="quick", backends=("hand", "tt", "jax")):
         add("Composite(NeoHooke&Volumetric)", lambda: fem.NeoHooke(mu=1.1) & C.Volumetric(bulk=3.0), "hand", scale=3.0)
         orx = dict(r=3.0, m=1.0, beta=0.1)
         add("OgdenRoxburgh(NeoHooke)", lambda: fem.OgdenRoxburgh(fem.NeoHooke(mu=1.0, bulk=2.0), **orx), "hand", nstate=1, hyper=False,
-            states=[("virgin", lambda n: _sv(1, n, 0.0)), ("softened", lambda n: _sv(1, n, 3.0))], scale=2.0)
+            states=[("virgin", lambda n: _sv(1, n, 0.0)), ("softened", lambda n: _sv(1, n, 3.0)), ("mixed-maxima", lambda n: _sv_alt(n, 0.02, 3.0))], scale=2.0)
         # the same bodies in another stress unit (a kPa gel in a GPa unit system and the reverse): all moduli x s, energies x s
         for s_ in (1e-9, 1e7):
             add(f"NeoHooke(mu,bulk)*{s_:g}", lambda s_=s_: fem.NeoHooke(mu=1.3 * s_, bulk=4.1 * s_), "hand", energy=en(fem.NeoHooke(mu=1.3 * s_, bulk=4.1 * s_)), scale=4.1 * s_)
             add(f"OgdenRoxburgh(NeoHooke)*{s_:g}", lambda s_=s_: fem.OgdenRoxburgh(fem.NeoHooke(mu=1.0 * s_, bulk=2.0 * s_), r=3.0, m=1.0 * s_, beta=0.1), "hand", nstate=1, hyper=False,
-                states=[("virgin", lambda n: _sv(1, n, 0.0)), ("softened", lambda n, s_=s_: _sv(1, n, 3.0 * s_))], scale=2.0 * s_)
+                states=[("virgin", lambda n: _sv(1, n, 0.0)), ("softened", lambda n, s_=s_: _sv(1, n, 3.0 * s_)), ("mixed-maxima", lambda n, s_=s_: _sv_alt(n, 0.02 * s_, 3.0 * s_))], scale=2.0 * s_)
         # small-strain laws (C03 only)
         add("LinearElastic", lambda: fem.LinearElastic(E=2.0, nu=0.3), "hand", finite=False, small=True, scale=2.0)
         add("LinearElasticTensorNotation", lambda: C.LinearElasticTensorNotation(E=2.0, nu=0.3), "hand", finite=False, small=True, scale=2.0)
         add("LinearElasticOrthotropic", lambda: fem.LinearElasticOrthotropic(E=[2.0, 3.0, 4.0], nu=[0.3, 0.2, 0.1], G=[1.0, 1.5, 2.0]), "hand", finite=False, small=True, iso=False, scale=4.0)
         add("Laplace", lambda: fem.Laplace(multiplier=2.0), "hand", finite=False, small=True, scale=2.0)
         add("MaterialStrain(linear_elastic)", lambda: fem.MaterialStrain(material=C.linear_elastic, λ=1.2, μ=0.8, statevars=(0,)), "hand", nstate=18, finite=False, small=True, scale=2.0,
-            states=[("virgin", lambda n: _sv(18, n)), ("after-call", None)])
+            states=[("virgin", lambda n: _sv(18, n)), ("after-call", None), ("after-call-het", None)])
 
     if "tt" in backends:
         for name, plist in TT_PARAMS.items():
@@ -106,9 +114,9 @@ def catalogue(tier="quick", backends=("hand", "tt", "jax")):
                     energy=tt_energy(fun, **kw), stressfree=REGULARISED.get(name, 0.0) if not (name == "van_der_waals" and kw.get("beta") == 0.0) else 1e-2,
                     scale=1.0, micro=name in MICRO, cost=3)
         add("tt.ogden_roxburgh(neo_hooke)", lambda: fem.Hyperelastic(C.ogden_roxburgh, material=C.neo_hooke, r=3.0, m=1.0, beta=0.1, mu=1.0, nstatevars=1), "tt", nstate=1, hyper=False,
-            states=[("virgin", lambda n: _sv(1, n, 0.0)), ("softened", lambda n: _sv(1, n, 3.0))], cost=3)
+            states=[("virgin", lambda n: _sv(1, n, 0.0)), ("softened", lambda n: _sv(1, n, 3.0)), ("mixed-maxima", lambda n: _sv_alt(n, 0.02, 3.0))], cost=3)
         add("tt.finite_strain_viscoelastic", lambda: fem.Hyperelastic(C.finite_strain_viscoelastic, mu=1.0, eta=1.0, dtime=1.0, nstatevars=6), "tt", nstate=6, hyper=False,
-            states=[("virgin", lambda n: _sv(6, n)), ("after-call", None)], cost=3)
+            states=[("virgin", lambda n: _sv(6, n)), ("after-call", None), ("after-call-het", None)], cost=3)
         add("tt.micro.affine_stretch(langevin)", lambda: fem.Hyperelastic(C.tensortrax.models.hyperelastic.microsphere.affine_stretch, f=C.tensortrax.models.hyperelastic.microsphere.langevin, kwargs=dict(mu=1.0, N=10.0)),
             "tt", micro=True, cost=5, stressfree=0.0)
         add("tt.MaterialAD(total_lagrange svk)", lambda: _ad_total(), "tt", hyper=True, cost=3)
